@@ -444,3 +444,357 @@ M.contract('exactly_lib.impls.instructions.assert_.utils.instruction_of_matcher:
                    (not any([e[0] in ('get:raised', 'matches_w_trace:raised') for e in trace]))
                    or result.status is pfh.PassOrFailOrHardErrorEnum.HARD_ERROR,
            }, raises_only=())
+
+
+# ------------------------------------------------------------------------------ assumed helpers outside the property
+
+M.contract('exactly_lib.common.err_msg.std_err_contents:InitialPartReaderWithRestIndicator.read', trusted=True,
+           params=dict(self=Any_, f=Any_), returns=Str)
+M.trust('std_err_contents.InitialPartReaderWithRestIndicator.read only reads (an initial part of) the given open '
+        'file, for an error message; it starts no process')
+
+STDIN_OF_SEQUENCE = 'stdin.of_sequence'
+M.contract('exactly_lib.impls.types.string_source.as_stdin:of_sequence', trusted=True, event=STDIN_OF_SEQUENCE,
+           params=dict(stdin_parts=Any_, mem_buff_size=Any_), returns=Iface(StdinCtxI))
+M.trust('as_stdin.of_sequence(parts, mem_buff_size) gives a context manager for a file with the concatenated '
+        'contents of the parts; building it starts no process (a part that is itself the output of a program '
+        'starts that program, when its contents are read, through ITS OWN site -- string_source/command_output, '
+        'verified here -- with the settings it was built with)')
+
+# ------------------------------------------------------------------------------ run / $ / % as an instruction
+
+from exactly_lib.impls.instructions.multi_phase.utils import instruction_from_parts_for_executing_program as run_instr
+
+P_RUN = 'exactly_lib.impls.instructions.multi_phase.utils.instruction_from_parts_for_executing_program'
+
+M.contract(P_RUN + ':TheInstructionEmbryo.main',
+           params=dict(self=Inst(run_instr.TheInstructionEmbryo, _program=SDV),
+                       environment=ENV_POST_SDS, settings=Any_, os_services=OS_SERVICES),
+           returns=Inst(run_instr.ExecutionResultAndStderr, _tuple=[Int, Opt(Str), Any_, Any_]),
+           ensures={
+               'one process start on the OS services, with the settings object of the environment (its timeout)':
+                   lambda environment, os_services, trace:
+                   len(executions(trace)) == 1
+                   and all_use(trace, os_services.command_executor, environment._proc_exe_settings),
+               'the program is built with the settings of the environment, unchanged':
+                   lambda environment, os_services, trace:
+                   len(primitives(trace)) == 1 and all_primitives_of(trace, os_services, environment),
+               'exit code is the one the executor returned': lambda result, trace:
+               result.exit_code == execution_results(trace)[0],
+           },
+           raises={HardErrorException: {'ensures': lambda environment, os_services, trace:
+           all_use(trace, os_services.command_executor, environment._proc_exe_settings)
+           and all_primitives_of(trace, os_services, environment)}},
+           raises_only=())
+
+
+# ------------------------------------------------------------------------------ programs as matchers / model getters
+
+def uses_app_env(trace, app_env):
+    """every process start requested on this path went to the command executor of the application
+    environment's OS services and carried the environment's settings object (its timeout) unchanged"""
+    return all_use(trace, app_env._os_services.command_executor, app_env._process_execution_settings)
+
+
+class ProgramI(Interface):
+    """a Program primitive: command, stdin parts, transformations, structure (all opaque here)"""
+    attrs = {'command': A_COMMAND, 'stdin': ListOf(Any_), 'transformation': ListOf(Any_)}
+    methods = {'structure': Method(returns=Any_)}
+
+
+PROGRAM = Iface(ProgramI)
+
+
+class ProgramAdvI(Interface):
+    methods = {PRIMITIVE: Method(returns=PROGRAM, event=PRIMITIVE, params=['environment'])}
+
+
+from exactly_lib.impls.instructions.assert_.process_output.impl.exit_code import getter_from_program
+from exactly_lib.impls.types.matcher.impls.run_program import adv as run_matcher_adv
+
+P_GFP = 'exactly_lib.impls.instructions.assert_.process_output.impl.exit_code.getter_from_program'
+
+M.contract(P_GFP + ':_ExitCodeAndStderrFileGetter.get',
+           params=dict(self=Inst(getter_from_program._ExitCodeAndStderrFileGetter, _program=PROGRAM, _app_env=APP_ENV)),
+           returns=Inst(store_result_in_files.ExitCodeAndStderrFile, _tuple=[Int, Iface(FsPathI)]),
+           ensures={
+               'one process start, with the settings of the application environment the getter was built with':
+                   lambda self, trace: one_start(trace, self._program.command) and uses_app_env(trace, self._app_env),
+               'exit code is the one the executor returned': lambda result, trace:
+               result.exit_code == execution_results(trace)[0],
+           },
+           raises={HardErrorException: {'ensures': lambda self, trace: uses_app_env(trace, self._app_env)}},
+           raises_only=())
+
+M.contract(P_GFP + ':_ExitCodeAndStderrFileGetterAdv.primitive',
+           params=dict(self=Inst(getter_from_program._ExitCodeAndStderrFileGetterAdv, _program=Iface(ProgramAdvI)),
+                       environment=APP_ENV), inline=True,
+           ensures={'getter and its program are built with the given application environment': lambda environment, result, trace:
+           result._app_env is environment and primitives(trace) == [environment]},
+           raises_only=())
+
+
+class RunConfI(Interface):
+    methods = {'additional_stdin': Method(returns=ListOf(Any_)),
+               'program_for_model': Method(returns=PROGRAM)}
+
+
+M.contract('exactly_lib.impls.types.matcher.impls.run_program.adv:Matcher.matches_w_trace',
+           params=dict(self=Inst(run_matcher_adv.Matcher, _application_environment=APP_ENV,
+                                 _run_conf=Iface(RunConfI), _matcher_program=PROGRAM),
+                       model=Any_),
+           returns=Any_,
+           ensures={
+               'one process start, with the settings of the application environment the matcher was built with':
+                   lambda self, trace: len(executions(trace)) == 1 and uses_app_env(trace, self._application_environment),
+               'matches iff exit code 0': lambda result, trace: result.value == (execution_results(trace)[0] == 0),
+           },
+           raises={HardErrorException: {'ensures': lambda self, trace: uses_app_env(trace, self._application_environment)}},
+           raises_only=())
+
+M.contract('exactly_lib.impls.types.matcher.impls.run_program.adv:Adv.primitive', inline=True,
+           params=dict(self=Inst(run_matcher_adv.Adv, _program=Iface(ProgramAdvI), _run_conf=Iface(RunConfI)),
+                       environment=APP_ENV),
+           ensures={'matcher and its program are built with the given application environment':
+                    lambda environment, result, trace:
+                    result._application_environment is environment and primitives(trace) == [environment]},
+           raises_only=())
+
+
+# ------------------------------------------------------------------------------ programs as string transformers
+
+from exactly_lib.impls.types.string_transformer.impl.sources import transformed_by_program as tbp
+from exactly_lib.impls.types.string_transformer.impl.run_program import primitive as run_transformer_primitive
+from exactly_lib.impls.types.string_transformer.impl.run_program import sdv as run_transformer_sdv
+
+P_TBP = 'exactly_lib.impls.types.string_transformer.impl.sources.transformed_by_program'
+
+
+class ContentsI(Interface):
+    """StringSourceContents: only its file is used by the sites"""
+    attrs = {'as_file': Iface(FsPathI), 'tmp_file_space': DIR_FILE_SPACE}
+
+
+class StringSourceI(Interface):
+    """a StringSource primitive (its contents are C14's subject)"""
+    methods = {'contents': Method(returns=Iface(ContentsI)), 'structure': Method(returns=Any_),
+               'new_structure_builder': Method(returns=Any_)}
+
+
+STRING_SOURCE = Iface(StringSourceI)
+
+TRANSFORMATION_WRITER = Inst(tbp._TransformationWriter, environment=APP_ENV, _ignore_exit_code=Bool,
+                             transformer=A_COMMAND)
+
+M.contract(P_TBP + ':_TransformationWriter.write',
+           params=dict(self=TRANSFORMATION_WRITER, source=Iface(ContentsI), output=Any_),
+           ensures={'one process start, with the settings of the application environment the writer was built with':
+                    lambda self, trace: one_start(trace, self.transformer) and uses_app_env(trace, self.environment)},
+           raises={HardErrorException: {'ensures': lambda self, trace: uses_app_env(trace, self.environment)}},
+           raises_only=())
+
+# construction of the (lazy) transformed string source: outside the property except for what it is given
+FROM_WRITER = 'transformed_string_source_from_writer'
+M.contract('exactly_lib.impls.types.string_transformer.impl.sources.transformed_string_sources:'
+           'transformed_string_source_from_writer', trusted=True, event=FROM_WRITER,
+           params=dict(write=Any_, model=Any_, get_transformer_structure=Any_, mem_buff_size=Any_, file_name=Any_),
+           returns=STRING_SOURCE)
+M.contract('exactly_lib.type_val_prims.string_source.impls.concat:string_source', trusted=True,
+           params=dict(parts=Any_, mem_buff_size=Any_, file_name=Any_), returns=STRING_SOURCE)
+M.trust('transformed_string_sources.transformed_string_source_from_writer(write, model, ...) and '
+        'string_source.impls.concat.string_source(parts, ...) build lazy string sources; they start no process '
+        'themselves: a transformed source calls the `write` callable it was given when its contents are read (C14)')
+
+
+def writers_given(trace):
+    return [e[1]['write'] for e in trace if e[0] == FROM_WRITER]
+
+
+def writer_of(write, environment, command):
+    """`write` is the bound method _TransformationWriter.write of a writer holding exactly `environment`"""
+    w = write.__self__
+    return type(w) is tbp._TransformationWriter and write.__func__ is tbp._TransformationWriter.write \
+        and w.environment is environment and w.transformer is command
+
+
+from exactly_lib.impls.types.utils.command_w_stdin import CommandWStdin
+
+M.contract(P_TBP + ':transformed_by_command', inline=True,
+           params=dict(structure_header=Str, transformer=Inst(CommandWStdin, command=A_COMMAND, stdin=ListOf(Any_)),
+                       ignore_exit_code=Bool, environment=APP_ENV, model=STRING_SOURCE),
+           ensures={'the writer that will start the process holds the given application environment, unchanged':
+                    lambda transformer, environment, trace:
+                    len(writers_given(trace)) == 1
+                    and writer_of(writers_given(trace)[0], environment, transformer.command)
+                    and executions(trace) == []},
+           raises_only=())
+
+
+class TransformerI(Interface):
+    attrs = {'is_identity_transformer': Bool}
+    methods = {'transform': Method(returns=STRING_SOURCE)}
+
+
+TRANSFORMER_PROGRAM = PROGRAM
+
+M.contract('exactly_lib.impls.types.string_transformer.sequence_resolving:resolve', trusted=True,
+           params=dict(unknown_num_transformers=Any_), returns=Iface(TransformerI))
+M.trust('string_transformer.sequence_resolving.resolve(transformers) combines the transformers of a program into '
+        'one transformer (identity / the single one / their sequence, C05); it starts no process: a transformer '
+        'that runs a program is itself a site (_RunStringTransformer.transform, verified here)')
+
+
+M.contract(P_TBP + ':transformed_by_program', inline=True,
+           params=dict(structure_header=Str, transformer=TRANSFORMER_PROGRAM, ignore_exit_code=Bool,
+                       environment=APP_ENV, model=STRING_SOURCE),
+           ensures={'the writer that will start the process holds the given application environment, unchanged':
+                    lambda transformer, environment, trace:
+                    len(writers_given(trace)) == 1
+                    and writer_of(writers_given(trace)[0], environment, transformer.command)
+                    and executions(trace) == []},
+           raises_only=())
+
+M.contract('exactly_lib.impls.types.string_transformer.impl.run_program.primitive:_RunStringTransformer.transform',
+           params=dict(self=Inst(run_transformer_primitive._RunStringTransformer, _name=Str, _environment=APP_ENV,
+                                 _ignore_exit_code=Bool, _program=TRANSFORMER_PROGRAM, _structure=Any_),
+                       model=STRING_SOURCE),
+           returns=STRING_SOURCE,
+           ensures={'the writer that will start the process holds the application environment of the transformer':
+                    lambda self, trace:
+                    len(writers_given(trace)) == 1
+                    and writer_of(writers_given(trace)[0], self._environment, self._program.command)
+                    and executions(trace) == []},
+           raises_only=())
+
+M.contract('exactly_lib.impls.types.string_transformer.impl.run_program.sdv:_RunProgramAdv.primitive',
+           params=dict(self=Inst(run_transformer_sdv._RunProgramAdv, _ignore_exit_code=Bool, _program=Iface(ProgramAdvI)),
+                       environment=APP_ENV),
+           returns=Any_,
+           ensures={'transformer and its program are built with the given application environment':
+                    lambda environment, result, trace:
+                    type(result) is run_transformer_primitive._RunStringTransformer
+                    and result._environment is environment and primitives(trace) == [environment]},
+           raises_only=())
+
+
+# ------------------------------------------------------------------------------ programs as text sources (command output)
+
+from exactly_lib.impls.types.string_source.command_output import exit_ignored, exit_relevant
+from exactly_lib.impls.types.string_source.command_output import string_source as cmd_string_source
+from exactly_lib.impls.types.string_source import ddvs as string_source_ddvs
+from exactly_lib.impls.types.string_source.contents.contents_via_file import ContentsViaFile
+from exactly_lib.impls.types.string_source.contents.contents_via_write_to import ContentsViaWriteTo
+from exactly_lib.impls.types.string_source.cached_frozen import StringSourceWithCachedFrozen
+from exactly_lib.util.process_execution.process_output_files import ProcOutputFile
+
+P_EXI = 'exactly_lib.impls.types.string_source.command_output.exit_ignored'
+P_EXR = 'exactly_lib.impls.types.string_source.command_output.exit_relevant'
+P_CSS = 'exactly_lib.impls.types.string_source.command_output.string_source'
+
+COMMAND_W_STDIN = Inst(CommandWStdin, command=A_COMMAND, stdin=ListOf(STRING_SOURCE))
+
+
+def _writer_shape(cls, **extra):
+    return Inst(cls, _command=COMMAND_W_STDIN, _proc_exe_settings=SETTINGS, _command_executor=EXECUTOR, **extra)
+
+
+def holds(w, settings, executor):
+    """the writer / file creator `w` holds exactly the given settings object and command executor"""
+    return w._proc_exe_settings is settings and w._command_executor is executor
+
+
+def starts_with_held_settings(self, trace):
+    return all_use(trace, self._command_executor, self._proc_exe_settings)
+
+
+for _q, _shape in ((P_EXI + ':_WriterBase.write',
+                    Union(_writer_shape(exit_ignored.StdoutWriter), _writer_shape(exit_ignored.StderrWriter))),
+                   (P_EXR + ':StdoutWriter.write',
+                    _writer_shape(exit_relevant.StdoutWriter, _stderr_msg_reader=Iface(TextReaderI)))):
+    M.contract(_q, params=dict(self=_shape, tmp_file_space=DIR_FILE_SPACE, output=Any_),
+               ensures={'one process start, with the settings object (its timeout) the writer was built with':
+                        lambda self, trace: one_start(trace, self._command.command) and starts_with_held_settings(self, trace)},
+               raises={HardErrorException: {'ensures': lambda self, trace: starts_with_held_settings(self, trace)}},
+               raises_only=())
+
+M.contract(P_EXR + ':StderrFileCreator.create',
+           params=dict(self=_writer_shape(exit_relevant.StderrFileCreator, _stderr_msg_reader=Iface(TextReaderI)),
+                       tmp_file_space=DIR_FILE_SPACE), returns=Iface(FsPathI),
+           ensures={'one process start, with the settings object (its timeout) the file creator was built with':
+                    lambda self, trace: one_start(trace, self._command.command) and starts_with_held_settings(self, trace)},
+           raises={HardErrorException: {'ensures': lambda self, trace: starts_with_held_settings(self, trace)}},
+           raises_only=())
+
+
+def _the_starter_of(contents):
+    """the object inside command-output contents that will start the process"""
+    if type(contents) is ContentsViaFile:
+        return contents._file_creator
+    if type(contents) is ContentsViaWriteTo:
+        return contents._writer
+    raise ValueError('unexpected contents')
+
+
+_STARTER_CLASSES = (exit_relevant.StderrFileCreator, exit_relevant.StdoutWriter,
+                    exit_ignored.StdoutWriter, exit_ignored.StderrWriter)
+
+M.contract(P_CSS + ':_writer', inline=True,
+           params=dict(ignore_exit_code=Bool, output_channel_to_capture=EnumOf(ProcOutputFile), command=COMMAND_W_STDIN,
+                       proc_exe_settings=SETTINGS, command_executor=EXECUTOR),
+           ensures={'the writer holds the given settings and executor, unchanged':
+                    lambda proc_exe_settings, command_executor, command, result:
+                    type(result) in _STARTER_CLASSES and holds(result, proc_exe_settings, command_executor)
+                    and result._command is command},
+           raises_only=())
+
+M.contract(P_CSS + ':_contents', inline=True,
+           params=dict(ignore_exit_code=Bool, output_channel_to_capture=EnumOf(ProcOutputFile), command=COMMAND_W_STDIN,
+                       proc_exe_settings=SETTINGS, command_executor=EXECUTOR, tmp_file_space=DIR_FILE_SPACE),
+           ensures={'the process starter holds the given settings and executor, unchanged':
+                    lambda proc_exe_settings, command_executor, command, result:
+                    type(_the_starter_of(result)) in _STARTER_CLASSES
+                    and holds(_the_starter_of(result), proc_exe_settings, command_executor)
+                    and _the_starter_of(result)._command is command},
+           raises_only=())
+
+M.contract(P_CSS + ':string_source', inline=True,
+           params=dict(structure_option=Str, ignore_exit_code=Bool, output_channel_to_capture=EnumOf(ProcOutputFile),
+                       command=COMMAND_W_STDIN, proc_exe_settings=SETTINGS, command_executor=EXECUTOR,
+                       mem_buff_size=Nat, tmp_file_space=DIR_FILE_SPACE),
+           ensures={'no process is started yet; the starter inside holds the given settings and executor, unchanged':
+                    lambda proc_exe_settings, command_executor, command, result, trace:
+                    type(result) is StringSourceWithCachedFrozen and executions(trace) == []
+                    and type(_the_starter_of(result._contents)) in _STARTER_CLASSES
+                    and holds(_the_starter_of(result._contents), proc_exe_settings, command_executor)
+                    and _the_starter_of(result._contents)._command is command},
+           raises_only=())
+
+
+class StringSourceAdvI(Interface):
+    methods = {PRIMITIVE: Method(returns=STRING_SOURCE)}
+
+
+class StringSourceDdvI(Interface):
+    attrs = {'validator': Iface(ValidatorI)}
+    methods = {'value_of_any_dependency': Method(returns=Iface(StringSourceAdvI))}
+
+
+class CommandDdvI(Interface):
+    attrs = {'validators': Any_}
+    methods = {'value_of_any_dependency': Method(returns=A_COMMAND)}
+
+
+M.contract('exactly_lib.impls.types.string_source.ddvs:CommandOutputStringSourceDdv.value_of_any_dependency',
+           params=dict(self=Inst(string_source_ddvs.CommandOutputStringSourceDdv, _structure_header=Str,
+                                 _ignore_exit_code=Bool, _output_channel_to_capture=EnumOf(ProcOutputFile),
+                                 _command=Iface(CommandDdvI), _command_stdin=ListOf(Iface(StringSourceDdvI)),
+                                 _validators=Any_),
+                       tcds=Any_),
+           ghosts=dict(app_env=APP_ENV),     # an arbitrary application environment the adv is later asked for
+           ensures={'for every application environment: the text source built for it holds that environment\'s '
+                    'settings object and command executor, unchanged, and building it starts no process':
+                    lambda result, app_env, trace:
+                    holds(_the_starter_of(result.primitive(app_env)._contents),
+                          app_env._process_execution_settings, app_env._os_services.command_executor)
+                    and executions(trace) == []},
+           raises_only=())
